@@ -19,8 +19,12 @@ import CrabModel.Scalar.Interval
   keeps the `Option` forms; they agree when the widths are equal, see
   `CrabProofs/Lemmas/WInterval.lean`).  Operands of different widths are outside the model.
 
-  `none` = CRAB_ERROR or C++ undefined behaviour (an undefined shift inside `wrapint`, or the
-  `int` shift `1 << (w - 3)` of the widening for `w ≥ 34`).
+  `none` = CRAB_ERROR (no C++ undefined behaviour is left: the wrapint shifts are total and the
+  widening computes `(uint64_t)1 << (w - 3)`).
+
+  State of the code: after the fixes to `signed_mul` (overflow tests on signed values), `UDiv`
+  (`unsigned_split`), the widening (third case guarded by `*this <= x`, 64-bit shift), `ZExt/SExt`
+  of top, `Shl` by the bitwidth or more.
   `assert`s of the C++ are not modelled (the library is built with NDEBUG as in the pinned build
   configuration; they hold on every path the model can take, except `assert(w > 1)` in the
   widening of 1-bit intervals: see `widen`).
@@ -126,40 +130,36 @@ def meet (x y : WInt) : WInt :=
     else mk2 y.start x.stop
   else bottom
 
-/-- the constant `max` of the widening (`growth_rate = 8`): `wrapint(1 << (w - 3), w)` if `w > 3`;
-    otherwise the `switch` falls through `case 16` (`w > 4` is false) to the default
-    `wrapint(1 << (w - 1), w)`.  The shifts are done on a 32-bit `int`: for `w - 3 ≥ 31` the
-    result is not defined (`none`). -/
-def widenMax? (w : Nat) : Option WrapInt :=
-  if w > 3 then (if w - 3 < 31 then some (ofNatT (2 ^ (w - 3)) w) else none)
-  else some (ofNatT (2 ^ (w - 1)) w)
+/-- the constant `max` of the widening (`growth_rate = 8`): `wrapint((uint64_t)1 << (w - 3), w)` if
+    `w > 3`; otherwise the `switch` falls through `case 16` (`w > 4` is false) to the default
+    `wrapint((uint64_t)1 << (w - 1), w)` -/
+def widenMax (w : Nat) : WrapInt :=
+  if w > 3 then ofNatT (2 ^ (w - 3)) w else ofNatT (2 ^ (w - 1)) w
 
 /-- `operator||`.  (`assert(w > 1)` on the default branch of the `switch` would abort an
     assert-enabled build for 1-bit operands; with NDEBUG `max = wrapint(1 << 0, 1)`.) -/
-def widen (x y : WInt) : Option WInt :=
-  if x.isBottom then some y
-  else if y.isBottom then some x
-  else if x.isTop || y.isTop then some top
-  else if y.leq x then some x
+def widen (x y : WInt) : WInt :=
+  if x.isBottom then y
+  else if y.isBottom then x
+  else if x.isTop || y.isTop then top
+  else if y.leq x then x
   else
     let w := y.start.width
-    match widenMax? w with
-    | none => none
-    | some max =>
-      if decide ((subT x.stop x.start).n ≥ max.n) then some top
-      else
-        let j := join x y
-        let c (k : Nat) := ofNatT k w
-        if j.eq (mk2 x.start y.stop) then
-          let newEnd := addT (subT (mulT x.stop (c 8)) (mulT x.start (c 7))) (c 7)
-          some (join j (mk2 x.start newEnd))
-        else if j.eq (mk2 y.start x.stop) then
-          let newStart := subT (subT (mulT x.start (c 8)) (mulT x.stop (c 7))) (c 7)
-          some (join j (mk2 newStart x.stop))
-        else if y.at x.start && y.at x.stop then
-          let delta := addT (subT (mulT x.stop (c 8)) (mulT x.start (c 8))) (c 7)
-          some (join y (mk2 y.start (addT y.start delta)))
-        else some top
+    let max := widenMax w
+    if decide ((subT x.stop x.start).n ≥ max.n) then top
+    else
+      let j := join x y
+      let c (k : Nat) := ofNatT k w
+      if j.eq (mk2 x.start y.stop) then
+        let newEnd := addT (subT (mulT x.stop (c 8)) (mulT x.start (c 7))) (c 7)
+        join j (mk2 x.start newEnd)
+      else if j.eq (mk2 y.start x.stop) then
+        let newStart := subT (subT (mulT x.start (c 8)) (mulT x.stop (c 7))) (c 7)
+        join j (mk2 newStart x.stop)
+      else if x.leq y then
+        let delta := addT (subT (mulT x.stop (c 8)) (mulT x.start (c 8))) (c 7)
+        join y (mk2 y.start (addT y.start delta))
+      else top
 
 /-- `operator+` -/
 def add (x y : WInt) : WInt :=
@@ -235,7 +235,11 @@ def unsignedMul (x y : WInt) : WInt :=
     mk2 (mulT x.start y.start) (mulT x.stop y.stop)
   else top
 
-/-- `signed_mul` -/
+/-- `get_signed_bignum` of an end point, total form (xor with the all-ones of the width) -/
+def sgnT (a : WrapInt) : Int :=
+  if a.msb then -(((a.n ^^^ (umaxT a.width).n : Nat) : Int) + 1) else (a.n : Int)
+
+/-- `signed_mul` (the overflow tests read the bounds as signed numbers) -/
 def signedMul (x y : WInt) : WInt :=
   let ms := x.start.msb
   let me := x.stop.msb
@@ -245,16 +249,16 @@ def signedMul (x y : WInt) : WInt :=
   let um : Int := (umaxT b).n
   if ms == me && me == mxs && mxs == mxe then
     if !ms then unsignedMul x y
-    else if ((x.start.n : Int) * y.start.n - (x.stop.n : Int) * y.stop.n) < um then
+    else if (sgnT x.start * sgnT y.start - sgnT x.stop * sgnT y.stop) < um then
       mk2 (mulT x.stop y.stop) (mulT x.start y.start)
     else top
   else if !(ms != me || mxs != mxe) then
     if ms && !mxs then
-      if ((x.stop.n : Int) * y.start.n - (x.start.n : Int) * y.stop.n) < um then
+      if (sgnT x.stop * sgnT y.start - sgnT x.start * sgnT y.stop) < um then
         mk2 (mulT x.start y.stop) (mulT x.stop y.start)
       else top
     else if !ms && mxs then
-      if ((x.start.n : Int) * y.stop.n - (x.stop.n : Int) * y.start.n) < um then
+      if (sgnT x.start * sgnT y.stop - sgnT x.stop * sgnT y.start) < um then
         mk2 (mulT x.stop y.start) (mulT x.start y.stop)
       else top
     else top
@@ -357,28 +361,45 @@ def sdiv (x y : WInt) : Option WInt :=
           res := join res q
     pure res
 
-/-- `UDiv` (splits both operands with `signed_split` only) -/
+/-- the three nested loops of `UDiv`, innermost first (a CRAB_ERROR leaves them at once) -/
+def udivDs (ci : WInt) : List WInt → WInt → Option WInt
+  | [], res => some res
+  | d :: ds, res =>
+    match unsignedDiv? ci d with
+    | none => none
+    | some q => udivDs ci ds (join res q)
+def udivYs (ci : WInt) : List WInt → WInt → Option WInt
+  | [], res => some res
+  | cj :: ys, res =>
+    match trimZero? cj with
+    | none => none
+    | some ds =>
+      match udivDs ci ds res with
+      | none => none
+      | some res' => udivYs ci ys res'
+def udivXs (ycuts : List WInt) : List WInt → WInt → Option WInt
+  | [], res => some res
+  | ci :: xs, res =>
+    match udivYs ci ycuts res with
+    | none => none
+    | some res' => udivXs ycuts xs res'
+
+/-- `UDiv` (both operands are cut with `unsigned_split`) -/
 def udiv (x y : WInt) : Option WInt :=
   if x.isBottom || y.isBottom then some bottom
   else if x.isTop || y.isTop then some top
-  else do
-    let cuts ← signedSplit? x
-    let ycuts ← signedSplit? y
-    let mut res := bottom
-    for ci in cuts do
-      for cj in ycuts do
-        let ds ← trimZero? cj
-        for d in ds do
-          let q ← unsignedDiv? ci d
-          res := join res q
-    pure res
+  else
+    match unsignedSplit? x, unsignedSplit? y with
+    | some cuts, some ycuts => udivXs ycuts cuts bottom
+    | _, _ => none
 
 /-- `default_implementation` : `SRem`, `URem`, `And`, `Or`, `Xor` -/
 def defaultImpl (x y : WInt) : WInt :=
   if x.isBottom || y.isBottom then bottom else top
 
-/-- `ZExt(bits_to_add)` : no top/bottom test before `unsigned_split` -/
+/-- `ZExt(bits_to_add)` : top is returned unchanged -/
 def zext (x : WInt) (k : Nat) : Option WInt := do
+  if x.isTop then return x
   let parts ← unsignedSplit? x
   let mut res := bottom
   for p in parts do
@@ -390,6 +411,7 @@ def zext (x : WInt) (k : Nat) : Option WInt := do
 
 /-- `SExt(bits_to_add)` -/
 def sext (x : WInt) (k : Nat) : Option WInt := do
+  if x.isTop then return x
   let parts ← signedSplit? x
   let mut res := bottom
   for p in parts do
@@ -419,13 +441,13 @@ def trunc (x : WInt) (k : Nat) : Option WInt :=
         if !(decide (ls.n ≤ le.n)) then pure (mk2 ls le) else pure top
       else pure top
 
-/-- `Shl(uint64_t k)`.  `Trunc(b - k)` takes an `unsigned`: only `k ≤ b` is modelled. -/
+/-- `Shl(uint64_t k)`: for `k ≥ b` the singleton 0 -/
 def shlK (x : WInt) (k : Nat) : Option WInt :=
   if x.isBottom then some x
   else if x.isTop then some x
   else do
     let b := x.start.width
-    if k > b then none
+    if k ≥ b then return single (ofNatT 0 b)
     let y ← trunc x (b - k)
     if !y.isTop then
       let wk ← WrapInt.mk? k b
